@@ -2700,6 +2700,8 @@ class netcdf(PseudoNetCDFFile, NetCDFFile):
             return False
 
     def close(self):
+        if not self.isopen():
+            return
         try:
             return NetCDFFile.close(self)
         except Exception as e:
